@@ -22,10 +22,11 @@ pub enum PKind {
     Untyped,
     Reg,
     Cc,
+    Src,
 }
 
 fn t(p: &str, e: &str, params: &[PKind]) -> Template {
-    Template { rule: RuleSrc::new(p, e), params: params.to_vec(), needs_reg: params.contains(&PKind::Reg) || params.contains(&PKind::Cc) }
+    Template { rule: RuleSrc::new(p, e), params: params.to_vec(), needs_reg: params.contains(&PKind::Reg) || params.contains(&PKind::Cc) || params.contains(&PKind::Src) }
 }
 
 pub fn pool() -> Vec<Template> {
@@ -60,7 +61,20 @@ pub fn pool() -> Vec<Template> {
         t("ld {x}[{y: u8}]", "0x19 @ x[15:8] @ y", &[Untyped, Typed('u', 8)]),
         // same literal-character count as `ld.b {x}` once the nested `b` is counted; indexed under a shorter prefix
         t("ld.{c: cc} {x: u8}", "0x2 @ c @ x", &[Cc, Typed('u', 8)]),
+        // sub-rules with their own parameters, wrappers and a nested sub-rule
+        t("mv {d: reg}, {s: src}", "0x8 @ d @ s", &[Reg, Src]),
+        t("mvx {s: src}+{x: u4}", "0x9 @ x @ s", &[Src, Typed('u', 4)]),
+        t("mv [{s: src}]", "0x7 @ 0xe @ s", &[Src]),
     ]
+}
+
+/// operands with parameters of their own: immediate `#v`, absolute `v`, register-indirect `(reg)`
+pub fn src_def() -> RuleDefSrc {
+    RuleDefSrc {
+        name: Some("src".into()),
+        sub: true,
+        rules: vec![RuleSrc::new("#{v: u8}", "0x1 @ v"), RuleSrc::new("{v: u8}", "0x2 @ v"), RuleSrc::new("({r: reg})", "0x3 @ 0x0 @ r"), RuleSrc::new("a", "0x4 @ 0x00")],
+    }
 }
 
 pub fn cc_def() -> RuleDefSrc {
@@ -75,6 +89,7 @@ fn operand_texts(k: PKind, full: bool) -> Vec<String> {
     match k {
         PKind::Reg => vec!["r0".into(), "r1".into(), "r10".into(), "r2".into(), "R1".into(), "a".into()],
         PKind::Cc => vec!["b".into(), "w".into(), "q".into()],
+        PKind::Src => vec!["#5".into(), "5".into(), "#300".into(), "300".into(), "(r1)".into(), "(r2)".into(), "a".into(), "A".into(), "#B".into(), "(a)".into(), "k + 1".into()],
         PKind::Untyped => {
             let mut v: Vec<String> = vec!["5".into(), "0x1234".into(), "-1".into(), "(1 + 1)".into(), "A".into(), "B".into(), "k".into(), "undef".into(), "a".into(), "$".into()];
             if full {
@@ -158,6 +173,7 @@ pub fn f1_prog_blocks(rules: &[&Template], line: &str, split: bool) -> Prog {
     if rules.iter().any(|r| r.needs_reg) {
         ruledefs.push(reg_def());
         ruledefs.push(cc_def());
+        ruledefs.push(src_def());
     }
     if split {
         for (i, r) in rules.iter().enumerate() {
@@ -324,7 +340,7 @@ pub fn f2_prog(seq: &[usize], items: &[Item], banked: bool) -> Prog {
 pub fn run(ctx: &Ctx) -> Report {
     let mut rep = Report::new(
         "model_checking",
-        "F1: every rule set of 1..k templates from a 28-template pool (prefix-sharing mnemonics, literal/typed/untyped/sub-rule operands, wrappers, glued and suffix literals, tie and smallest-wins pairs, slices, le(), $-relative) x every line of the whole pool (every range boundary, labels before/after, constant, undefined name) + malformed lines; F2: fixed 8-rule set x all item sequences up to a length (labels global/nested, constants, data of several widths, #res/#align/#addr, two banks); each compared (success, bits, symbol values) with the reference assembler. Non-trivial = the reference defines the outcome and the program emits >=1 item or is rejected by the rules; distinct by program text.",
+        "F1: every rule set of 1..k templates from a 31-template pool (prefix-sharing mnemonics, literal/typed/untyped/sub-rule operands, wrappers, glued and suffix literals, tie and smallest-wins pairs, slices, le(), $-relative) x every line of the whole pool (every range boundary, labels before/after, constant, undefined name) + malformed lines; F2: fixed 8-rule set x all item sequences up to a length (labels global/nested, constants, data of several widths, #res/#align/#addr, two banks); each compared (success, bits, symbol values) with the reference assembler. Non-trivial = the reference defines the outcome and the program emits >=1 item or is rejected by the rules; distinct by program text.",
     );
     let pool = pool();
     let opts = Opts::iters(30);
